@@ -1043,7 +1043,20 @@ impl<'a, 'b> GeneratorState<'a> {
             Some(else_statement) => {
                 let else_label = format!(".else{}", self.local_label_counter_if);
                 self.generate_condition(condition, pos, true, &else_label, false)?;
-                let saved_flags = self.flags.clone();
+                // The else branch is entered with the flags of the last test only when a single
+                // test can jump there: && and || branch to it from several places
+                fn short_circuits(e: &Expr) -> bool {
+                    match e {
+                        Expr::BinOp { op: Operation::Land, .. } | Expr::BinOp { op: Operation::Lor, .. } => true,
+                        Expr::Not(x) => short_circuits(x),
+                        _ => false,
+                    }
+                }
+                let saved_flags = if short_circuits(condition) {
+                    FlagsState::Unknown
+                } else {
+                    self.flags.clone()
+                };
                 self.generate_statement(body)?;
                 self.asm(JMP, &ExprType::Label(ifend_label.clone()), 0, false)?;
                 self.label(&else_label)?;
